@@ -105,3 +105,12 @@ func BzKraftCombos(rng *rand.Rand) []BzCase {
 	}
 	return out
 }
+
+// BzOverlongRun: a synthesised stream with one RUNA/RUNB run number of 19..48 digits
+// (libbzip2 refuses run weights from 2^21 on; 32-bit counters wrap from digit 32 on).
+func BzOverlongRun(rng *rand.Rand) BzCase {
+	o := synthOptsRandom(rng)
+	o.inject = 15
+	s, _ := synthStream(rng, o)
+	return BzCase{"synth-overlong-run", s}
+}
